@@ -235,6 +235,52 @@ pub fn tables() -> Vec<Case> {
             out.push(stmt_case("expr.unary", format!("{} of ({})", utext, o.text), lx, un(unt, bin(o, ref_("a"), ref_("b")))));
         }
     }
+    // a unary operator on a parenthesised group used as an operand of another binary operator,
+    // and as a call argument: -(a op1 b) op2 c ; c op2 -(a op1 b) ; Fn(-(a op1 b)) op2 c
+    let menu2: Vec<&Op> = [0usize, 2, 4, 6, 10, 11, 12, 13, 15].iter().map(|i| &OPS[*i]).collect();
+    for (utext, unt) in [("-", "NEG"), ("NOT", "NOT")] {
+        for o1 in &menu2 {
+            for o2 in &menu2 {
+                for place in ["left", "right", "call-arg"] {
+                    let mut lx = Lx::new();
+                    let group = |lx: &mut Lx| -> NT {
+                        if utext == "-" {
+                            lx.push(Lexeme::new("-", Class::Op).soft());
+                        } else {
+                            lx.kw("NOT");
+                        }
+                        lx.p("(").id("a");
+                        op_lex(lx, o1);
+                        lx.id("b").p(")");
+                        un(unt, bin(o1, ref_("a"), ref_("b")))
+                    };
+                    let nt = match place {
+                        "left" => {
+                            let g = group(&mut lx);
+                            op_lex(&mut lx, o2);
+                            lx.id("c");
+                            bin(o2, g, ref_("c"))
+                        }
+                        "right" => {
+                            lx.id("c");
+                            op_lex(&mut lx, o2);
+                            let g = group(&mut lx);
+                            bin(o2, ref_("c"), g)
+                        }
+                        _ => {
+                            lx.id("Fn").p("(");
+                            let g = group(&mut lx);
+                            lx.p(")");
+                            op_lex(&mut lx, o2);
+                            lx.id("c");
+                            bin(o2, n("Call", vec![("name", s("Fn")), ("args", l(vec![n("Pos", vec![("e", g)])]))]), ref_("c"))
+                        }
+                    };
+                    out.push(stmt_case("expr.unary-group", format!("{}({}) {} {}", utext, o1.text, place, o2.text), lx, nt));
+                }
+            }
+        }
+    }
     out
 }
 
